@@ -115,6 +115,7 @@ impl Decode<'_> for ErrorCode {
 //@tags C02 C03 C01
 //@sub "reason.len()" => "vx_str_len(reason)"
 //@after "let class ="
+    proof { lemma_bitops_commute(); }
     proof { let b = raw_value[2]; assert(b & 0x07 == b % 8) by (bit_vector); }
 //@before "if vx_str_len(reason)"
     proof {
